@@ -34,7 +34,9 @@ structure Case where
   procUid : Nat
   procGid : Nat
   fsetid : Bool             -- the process has CAP_FSETID (root)
-  prev : Option Stat        -- `none`: the file did not exist before the call
+  prev : Option Stat        -- the file the write FOUND when it opened the path; `none`: it created the file
+                            -- (hooks that do not touch the file: `none` = absent before the call; hooks that
+                            -- move/replace it: taken at open time, see Spec/C13Fx.lean `foundAtOpen`)
   wantUid : Option Nat      -- resolved configured owner for this file type
   wantGid : Option Nat      -- resolved configured group for this file type
   dataEmpty : Bool          -- zero bytes were written
